@@ -21,6 +21,13 @@ def rand_file(rng, ext):
         text = "#VERSION:0.83;\n#TITLE:%s;\n#ARTIST:%s;\n#BPMS:0.000=120.000;\n" % (w(), w())
         if rng.random() < .5:
             text += "#NOTEDATA:;\n#STEPSTYPE:dance-single;\n#DESCRIPTION:%s;\n#NOTES:\n0000\n0100\n;\n" % w()
+    if rng.random() < .18:
+        # a long value so that multi-byte characters straddle the 4096/8192/16384-byte and -character marks
+        target = rng.choice([4096, 8192, 8192, 16384]) + rng.randrange(-40, 40)
+        filler = ""
+        while len((text + filler).encode(enc)) < target + 120:
+            filler += rng.choice([w(), "a", "bc", w() + w()])
+        text = text.replace("#ARTIST:", "#GENRE:%s;\n#ARTIST:" % filler, 1)
     return text.encode(enc), enc
 
 
